@@ -740,6 +740,22 @@ class StaleClient(flow.Client):
                     return [(False, False, flag)], []
                 self.exits.append(s)
                 return [], [s]
+            # `flag && other`: the loop goes on only while the flag is set, but may also be left with the flag still set
+            conj = []
+
+            def flat(y):
+                y = cast.strip(y)
+                if y['kind'] == 'BinaryOperator' and y.get('opcode') == '&&':
+                    for c_ in children(y):
+                        flat(c_)
+                else:
+                    conj.append(y)
+            flat(x)
+            if len(conj) > 1 and any(cast.decl_ref(c_) in self.flagvars for c_ in conj):
+                self.exits.append(s)
+                if flag == 'T':
+                    return [(False, False, flag)], [s]
+                return [], [s]
             # condition does not consult a change flag: both outcomes possible
             self.exits.append(s)
             return [(False, False, flag)], [s]
@@ -753,15 +769,32 @@ class StaleClient(flow.Client):
         return r, r
 
 
+def _outer_loop(f):
+    """(loop statement, its condition expression) of the single top-level iteration loop of resolveLabels; while / do / for."""
+    loops = [n for n in children(f.body) if n.get('kind') in ('WhileStmt', 'DoStmt', 'ForStmt')]
+    # a trailing for-loop over the program that only validates (no call that moves anything) is not the iteration: take loops that
+    # contain a nested loop over the program
+    cands = [l for l in loops if any(x.get('kind') in ('ForStmt', 'CXXForRangeStmt', 'WhileStmt') for c in children(l) for x in walk(c) if x is not l)]
+    cands = [l for l in cands if l['kind'] != 'ForStmt' or (len(l.get('inner', [])) == 5 and l['inner'][2])] or cands
+    iters = [l for l in cands if l['kind'] in ('WhileStmt', 'DoStmt')] or cands
+    if len(iters) != 1:
+        return None, None, len(iters)
+    l = iters[0]
+    if l['kind'] == 'WhileStmt':
+        return l, children(l)[0], 1
+    if l['kind'] == 'DoStmt':
+        return l, children(l)[1], 1
+    return l, l['inner'][2], 1
+
+
 def rule_fixed_point(rep, idx):
     rep.rule('R1', 'the layout iteration cannot be left while an operand may be stale: on every path to the loop exit, each call '
              'that can move labels or change an encoding length after an operand has been computed in the same pass has its '
              '"changed" result recorded in the flag that keeps the loop running (Engler-style must-record rule over the CFG)', floor=1)
     f = idx.func('hexasm::CodeGen::resolveLabels')
-    loops = [n for n in children(f.body) if n['kind'] in ('WhileStmt', 'DoStmt')]
-    if len(loops) != 1:
-        raise AnalysisBroken('resolveLabels: expected one top-level iteration loop, found %d' % len(loops))
-    outer = loops[0]
+    outer, outer_cond, nloops = _outer_loop(f)
+    if outer is None:
+        raise AnalysisBroken('resolveLabels: expected one top-level iteration loop, found %d' % nloops)
     # movers: methods that assign Label::labelValue, or a field that InstrLabel::getSize reads
     getsize = idx.func('hexasm::InstrLabel::getSize')
     size_fields = {x['name'] for x in walk(getsize.body) if x['kind'] == 'MemberExpr' and cast.is_this_member(x)}
@@ -782,13 +815,21 @@ def rule_fixed_point(rep, idx):
     flagvars = {d['id'] for d in walk(f.body) if d['kind'] == 'VarDecl' and qt(d) == 'bool'}
     cl = StaleClient(idx, movers, opset, outer, flagvars)
     cc = children(outer)
-    cl._cond_of_outer = cc[0] if outer['kind'] == 'WhileStmt' else cc[1]
+    cl._cond_of_outer = outer_cond
     fl = flow.Flow(cl, idx)
     o = fl.run(f.body, {(False, False, 'F')})
     final = set(o.normal) | {s for s, _ in o.ret}
     bad = [s for s in final if s[1]]
+    pending = [s for s in cl.exits if s[2] == 'T']
     rep.analysed(f.sig)
-    rep.add('R1', 'resolveLabels:no-stale-exit', bool(final) and not bad, pos(outer) + ' hexasm::CodeGen::resolveLabels',
+    if pending and not bad:
+        rep.add('R1', 'resolveLabels:no-stale-exit', False, pos(outer) + ' hexasm::CodeGen::resolveLabels',
+                'the iteration can be left while the change flag is still set (the loop condition has a second conjunct, e.g. a pass '
+                'counter): the growth recorded in the last pass is never laid out again, so every offset and operand behind it is stale',
+                data={'movers': sorted(movers), 'opset': sorted(opset)})
+        bad = None
+    if bad is not None:
+      rep.add('R1', 'resolveLabels:no-stale-exit', bool(final) and not bad, pos(outer) + ' hexasm::CodeGen::resolveLabels',
             ('the loop can be left in a pass in which %s moved the layout after operands had been computed, without that being '
              'recorded in the loop condition (operands computed earlier in the pass are stale)' % sorted(movers)) if bad else
             'movers %s, operand setters %s, flags %d: every exit state is clean' % (sorted(movers), sorted(opset), len(flagvars)),
@@ -797,7 +838,7 @@ def rule_fixed_point(rep, idx):
     rep.rule('R1b', 'within one pass of the layout iteration, every path from a (re)assignment of offsets or label values to the exit of '
              'the iteration passes through the statement that recomputes the label operands (no exit between layout and operand update)', floor=1)
     region = None
-    body = children(outer)[1] if outer['kind'] == 'WhileStmt' else children(outer)[0]
+    body = children(outer)[1] if outer['kind'] == 'WhileStmt' else outer['inner'][4] if outer['kind'] == 'ForStmt' else children(outer)[0]
     for st in (children(body) if body['kind'] == 'CompoundStmt' else [body]):
         qs = set()
         for c in cast.calls_in(st):
@@ -941,13 +982,10 @@ def rule_termination(rep, idx, rid='R8'):
              'bounded by 8 bytes; hence at most 7 x (number of references) + 1 passes, and the inner growth loop is bounded too', floor=4)
     f = idx.func('hexasm::CodeGen::resolveLabels')
     where = pos(f.node) + ' hexasm::CodeGen::resolveLabels'
-    loops = [n for n in children(f.body) if n['kind'] in ('WhileStmt', 'DoStmt')]
-    outer = loops[0] if len(loops) == 1 else None
+    outer, cond, nloops = _outer_loop(f)
     if outer is None:
-        rep.add(rid, 'single-iteration-loop', False, where, '%d top-level loops' % len(loops))
+        rep.undecided(rid, 'single-iteration-loop', '%d candidate iteration loops: idiom not recognised' % nloops, where)
         return
-    cc = children(outer)
-    cond = cc[0] if outer['kind'] == 'WhileStmt' else cc[1]
     fid = cast.decl_ref(cond)
     flag_only = fid is not None
     if not flag_only:
@@ -966,7 +1004,7 @@ def rule_termination(rep, idx, rid='R8'):
         size_fields = {x['name'] for x in walk(gs.body) if x['kind'] == 'MemberExpr' and cast.is_this_member(x)}
         if writes & size_fields:
             setters.add(m.qname)
-    body = cc[1] if outer['kind'] == 'WhileStmt' else cc[0]
+    body = children(outer)[1] if outer['kind'] == 'WhileStmt' else outer['inner'][4] if outer['kind'] == 'ForStmt' else children(outer)[0]
     bad_sets = []
     n_sets = 0
     parents = {}
